@@ -550,3 +550,35 @@ edges_between = FunctionContract(
     canary=[("cross = set_2 & set(self[node1])", "cross = set_2"), ("yield (node1, node2)", "yield (node2, node1)")],
 )
 CONTRACTS.append(edges_between)
+
+
+# ------------------------------------------------------------------ Molecule.copy
+def setup_copy(cx):
+    nodes = Obj('NodeView')
+    new = Obj('Molecule', name=None, citations=None, log_entries=None)
+    cit, cit_copy = Obj('citations'), Obj('citations-copy')
+    cit.attrs['copy'] = Builtin(lambda e: cit_copy, 'citations.copy')
+    logs, logs_copy = Obj('log_entries'), Obj('log_entries-deepcopy')
+    name = Obj('name')
+
+    def subgraph(e, n):
+        if n is not nodes:
+            raise EngineError('subgraph of other nodes')
+        return new
+    me = Obj('Molecule', nodes=nodes, name=name, citations=cit, log_entries=logs, subgraph=Builtin(subgraph, 'self.subgraph'))
+    cx.spec_env.update(NEW=new, NAME=name, CIT_COPY=cit_copy, LOGS_COPY=logs_copy)
+    cx.spec_env['copy'] = Obj('copy', deepcopy=Builtin(lambda e, x: logs_copy if x is logs else (_ for _ in ()).throw(EngineError('deepcopy')), 'copy.deepcopy'))
+    return dict(self=me)
+
+
+copy_molecule = FunctionContract(
+    F, 'Molecule.copy', 'C12', setup=setup_copy,
+    ensures=[
+        # a copy is the subgraph of all atoms (whose contract gives the atoms, bonds and interactions) with the same name, its own
+        # copy of the citations and a deep copy of the log entries
+        "result is NEW and result.name is NAME and result.citations is CIT_COPY and result.log_entries is LOGS_COPY",
+    ],
+    modifies=[],
+    canary=[("new.citations = self.citations.copy()", "new.citations = self.citations")],
+)
+CONTRACTS.append(copy_molecule)
